@@ -103,4 +103,55 @@ func init() {
 		stateRule,
 		[]Stage{bfs("lsm", 4, 60, prm("oracle", "c36", "keys", 1, "managed_ts", true))},
 		[]Stage{bfs("lsm", 6, 600, prm("oracle", "c36", "keys", 1, "managed_ts", true))})
+
+	enumPlan := func(level, text, note, rule string, quick, thorough []Stage) func(q bool) *Plan {
+		return func(q bool) *Plan {
+			p := &Plan{Level: level, Engine: "E-enum", Text: text, Note: note,
+				Technique: "bounded-exhaustive enumeration of inputs over boundary alphabets against a reference model, run on the real functions",
+				Rule:      rule,
+				Assume:    []string{"finite input alphabets chosen from the shortcuts visible in the code (varint boundaries, 0x00/0xFF bytes, prefix pairs, block boundaries)"}}
+			if q {
+				p.Stages = quick
+			} else {
+				p.Stages = thorough
+			}
+			return p
+		}
+	}
+	en := func(scn string, nshard int, budget float64, params map[string]any) Stage {
+		return Stage{Binary: "badger.coarse", Scenario: scn, NShard: nshard, BudgetS: budget, Params: params}
+	}
+	planTable["C20"] = enumPlan("exploration",
+		"All byte strings of length 1-3 (quick) / 1-4 (thorough) over {00,01,7f,80,ff} plus limit-length keys, crossed with 10 boundary versions: KeyWithTs/ParseKey/ParseTs round-trip, CompareKeys and SameKey on ALL ordered pairs against (user key ascending, version descending); header Encode/Decode/DecodeFrom, ValueStruct Encode/EncodeTo/Decode/EncodedSize and valuePointer Encode/Decode on all tuples of boundary field values.",
+		"Finite alphabets; exhaustive within them (exhaustive:true when the nest completes).",
+		"nested enumeration; every case is a distinct input tuple",
+		[]Stage{en("c20keys", 16, 60, prm("maxlen", 3)), en("c20hdr", 16, 60, nil)},
+		[]Stage{en("c20keys", 16, 600, prm("maxlen", 4)), en("c20hdr", 16, 300, nil)})
+	planTable["C19"] = enumPlan("exploration",
+		"Arithmetic level: for every bitsPerKey in 0..40 plus {64,100,1000} (covers every probe count k in 1..30, hence every BloomFalsePositive in (0,1)) and set sizes 1,2,3,7,64, every boundary-pattern hash (thorough: ALL 2^32 hash values for single-member sets at bitsPerKey 1,10,40) is added and must be reported by MayContain. End to end: every key of every table built by the SSTable enumeration, with bloom filters on, is found by DoesNotHave/Get.",
+		"Hash patterns are bit-boundary values in the quick tier; complete over 32-bit hashes only in the thorough tier.",
+		"nested enumeration over (bitsPerKey, set size, member hash)",
+		[]Stage{en("c19bloom", 16, 60, nil)},
+		[]Stage{en("c19bloom", 16, 900, prm("full32", true))})
+
+	planTable["C21"] = enumPlan("exploration",
+		"Universe of 5 internal keys (two versions of one key, a key extending it with 0xFF, two more keys); 1..3 (quick) / 1..4 (thorough) input iterators, each ANY subset of the universe (empty inputs included), flat and nested merge trees, forward and reverse: Rewind and Seek to every universe key and 8 gap probes must yield the sorted union with exactly one copy per internal key, tagged with the earliest input holding it.",
+		"Inputs are in-harness slice iterators with table-iterator seek semantics; the merge iterator is the production table.MergeIterator.",
+		"all tuples of subsets; distinct = distinct input tuples",
+		[]Stage{en("c21merge", 16, 90, prm("inputs", 3))},
+		[]Stage{en("c21merge", 16, 900, prm("inputs", 4))})
+
+	planTable["C16"] = enumPlan("exploration",
+		"Codec: every combination of key length {1,2,9,127,128,300}, value length {0,1,127,128,16383,16384}, all 64 subsets of the meta bits, user meta {0,ff}, 7 boundary expiry values and 3 record offsets, plain / AES-128 / AES-256: encodeEntry -> decodeEntry and safeRead.Entry return exactly the entry. Replay: every arrangement of up to 3 (quick) / 4 (thorough) groups out of {plain entry, txn of 1, txn of 3, txn without end marker, txn with a foreign-timestamp entry, GC-moved entry inside a txn, end marker with a wrong timestamp}: logFile.iterate delivers whole groups in order with exact value pointers, stops at the first broken group, validEndOffset at the last good boundary. Corruption: every byte of a 5-record log flipped / incremented: no altered record is ever delivered and nothing after it.",
+		"Records are written through the production writeEntry into a real mmap log file and read back by the production iterate.",
+		"nested enumeration; distinct = distinct field tuples / group arrangements / (byte position, mutation)",
+		[]Stage{en("c16codec", 16, 60, nil), en("c16replay", 16, 40, prm("groups", 3)), en("c16corrupt", 8, 30, nil)},
+		[]Stage{en("c16codec", 16, 300, nil), en("c16replay", 16, 300, prm("groups", 4)), en("c16corrupt", 8, 60, nil)})
+
+	planTable["C17"] = enumPlan("exploration",
+		"All sequences of up to 3 (quick) / 4 (thorough) change sets (creates on levels 0-2 with/without key id and compression, deletes of known and unknown tables, compaction-shaped create+delete sets) with deletionsRewriteThreshold 0, 2 and 10000 (automatic rewrites at every possible position): after every addChanges the replayed file, the in-memory manifest and a re-open equal the reference table map. For every sequence up to length 2 (3) the file is cut at EVERY byte (replay must give the state after the last complete change set and its offset) and every byte is flipped (replay must fail or give a prefix state).",
+		"Drives manifestFile.addChanges / ReplayManifestFile directly on real files.",
+		"recursive enumeration of change-set sequences; distinct = distinct (threshold, sequence)",
+		[]Stage{en("c17manifest", 16, 90, prm("depth", 3, "fault_depth", 2))},
+		[]Stage{en("c17manifest", 16, 900, prm("depth", 4, "fault_depth", 3))})
 }
